@@ -1549,3 +1549,7 @@ M('C14', 'index normaliser rejects positive start with negative stop', 'odl/util
   "    if any(s.start == s.stop and s.start is not None or",
   "    if any(s.start is not None and s.stop is not None and s.start >= s.stop or",
   'RectPartition.__getitem__')
+M('C20', 'element selection re-indexes the weights only when the shape changes', NPYF,
+  "                if isinstance(weighting, ArrayWeighting):\n                    weighting = NumpyTensorSpaceArrayWeighting(\n                        weighting.array[indices], weighting.exponent)",
+  "                if (isinstance(weighting, ArrayWeighting) and\n                        arr.shape != self.shape):\n                    weighting = NumpyTensorSpaceArrayWeighting(\n                        weighting.array[indices], weighting.exponent)",
+  'C20-R7e')
